@@ -42,3 +42,5 @@ func TestWorker(t *testing.T) {
 func TestC05(t *testing.T) { runProp(t, "C05", drawC05) }
 
 func TestC06(t *testing.T) { runProp(t, "C06", drawC06) }
+
+func TestC07(t *testing.T) { runProp(t, "C07", drawC07) }
